@@ -65,6 +65,7 @@ func (e *Exec) invoke(st *State, fr *Frame, cc *ssa.CallCommon, fv *Value, args 
 		// caller's, not the library's; modelled as opaque (result arbitrary,
 		// may panic, writes nothing the library owns)
 		e.Note("assumed: function values supplied by the environment (called in %s) do not write memory owned by the library and do not mutate the environment during a run", fnName(fr.fn))
+		e.assertArgsNotOwned(st, fr, args)
 		var as []*Term
 		for _, a := range args {
 			as = append(as, a.L...)
